@@ -59,6 +59,12 @@ func genMetricsCase(t *rapid.T) SeqCase {
 		case k < 22:
 			key := rapid.SampledFrom([]string{"CurrentTerm", "LastVoteTerm", "LastVoteCand", "k", "unset"}).Draw(t, "key")
 			c.Ops = append(c.Ops, Op{Kind: rapid.SampledFrom([]string{"getst", "getu64"}).Draw(t, "gk"), Key: key})
+		case k < 28:
+			// an append that hits an I/O error: nothing may be counted
+			op := genAppend(t, 3, 300)
+			op.Kind = "failappend"
+			op.Bad = rapid.SampledFrom([]string{"WriteAt", "SyncFile"}).Draw(t, "failkind")
+			c.Ops = append(c.Ops, op)
 		case k < 34:
 			// truncations that matter for the counters: everything, from zero, repeated
 			c.Ops = append(c.Ops, Op{Kind: "del", Min: &Pos{Rel: rapid.SampledFrom([]string{"zero", "first"}).Draw(t, "zm"), Off: 0},
@@ -139,6 +145,51 @@ func runMetrics(c SeqCase) (res common.Result) {
 			if r := rotationsIn(before, after); r > 0 {
 				exp["segment_rotations"] += r
 				cls["rotation"] = true
+			}
+		case "failappend":
+			logs := resolveAppend(op, m, gen)
+			armed := true
+			fs.SetHook(func(ev simfs.Event) (int, error) {
+				if armed && string(ev.Kind) == op.Bad && strings.HasSuffix(ev.Name, ".wal") {
+					armed = false
+					return -1, fmt.Errorf("injected %s error", op.Bad)
+				}
+				return -1, nil
+			})
+			before, _ := fs.MetaState()
+			err := w.StoreLogs(logs)
+			fs.SetHook(nil)
+			kit.Barrier(w)
+			after, _ := fs.MetaState()
+			if err == nil {
+				// the fault was not reached (e.g. nothing to write): a normal append
+				m.Append(logs)
+				exp["log_appends"]++
+				exp["log_entries_written"] += uint64(len(logs))
+				for _, l := range logs {
+					exp["log_entry_bytes_written"] += uint64(refmodel.EncodedLen(l))
+				}
+			} else {
+				cls["append-io-error"] = true
+				gen++
+				// retry with different content so that what is on disk at these indexes is
+				// determined again (a failed append may or may not survive a reopen, C10)
+				retry := resolveAppend(op, m, gen)
+				if err := w.StoreLogs(retry); err != nil {
+					res.Fail = common.Failf("append-err", "step %d: retry after an injected %s error = %v", i, op.Bad, err)
+					return
+				}
+				kit.Barrier(w)
+				after, _ = fs.MetaState()
+				m.Append(retry)
+				exp["log_appends"]++
+				exp["log_entries_written"] += uint64(len(retry))
+				for _, l := range retry {
+					exp["log_entry_bytes_written"] += uint64(refmodel.EncodedLen(l))
+				}
+			}
+			if r := rotationsIn(before, after); r > 0 {
+				exp["segment_rotations"] += r
 			}
 		case "bad":
 			logs, ok := resolveBad(op, m, gen)
